@@ -121,6 +121,12 @@ func runC14(c *core.Ctx) {
 		checkMultiset(c, "ABS5", s, ids)
 	}
 	c.Floor("ABS5", 28, "4 containers × 7 cases")
+	checkAggTriggers(c)
+}
+
+// checkAggTriggers: TRG and ABS4 for the ordered aggregates (shared by C03 and C14).
+func checkAggTriggers(c *core.Ctx) {
+	p := c.Prog
 	// TRG
 	for _, s := range []struct{ typ, end string }{{"Min", "Min"}, {"Max", "Max"}} {
 		fn := p.Func("aggregates", "(*"+s.typ+").Trigger")
